@@ -93,7 +93,9 @@ func (e *Encoder) writeValue(val reflect.Value, tagType byte) error {
 	case TagInt:
 		return writeInt32(e.w, int32(intValue(val)))
 	case TagFloat:
-		return writeInt32(e.w, int32(math.Float32bits(float32(val.Float()))))
+		// not through val.Float(): widening a float32 to float64 and back quiets a signalling NaN
+		f, _ := val.Convert(reflect.TypeOf(float32(0))).Interface().(float32)
+		return writeInt32(e.w, int32(math.Float32bits(f)))
 	case TagLong:
 		return writeInt64(e.w, intValue(val))
 	case TagDouble:
